@@ -82,6 +82,12 @@ Scan == Is("scan") /\ (Ev.src = 0 \/ Has(Ev.src))
               /\ SpanSetOf(Ev.rks) = Spans(View(Ev.src).rks))
         /\ UNCHANGED <<cur, hs, cv>>
 
+(* C43: under injected I/O faults a read returns an error or the right result, never a wrong result *)
+FGet == Is("fget") /\ (Chk("fault") => (Ev.err \/ Ev.res = View(Ev.src).pts[Ev.k])) /\ UNCHANGED <<cur, hs, cv>>
+FScan == Is("fscan")
+         /\ (Chk("fault") => (Ev.err \/ (Ev.pts = ScanPts(View(Ev.src)) /\ SpanSetOf(Ev.rks) = Spans(View(Ev.src).rks))))
+         /\ UNCHANGED <<cur, hs, cv>>
+
 (* ---- iterators ---- *)
 NewIter == Is("newiter") /\ ~Has(Ev.h) /\ (Ev.src = 0 \/ Has(Ev.src))
            /\ Put(Ev.h, [t |-> "iter", cls |-> Ev.cls, src |-> Ev.src,
@@ -188,7 +194,7 @@ ScanInt == Is("scanint") /\ (Ev.src = 0 \/ Has(Ev.src))
 Note == Is("note") /\ UNCHANGED <<cur, hs, cv>>
 
 TraceNext == \/ Reset \/ Commit \/ Ingest \/ IngestExcise \/ Excise \/ BatchCommit \/ DurablePoint \/ SyncWait \/ Maint
-             \/ Snap \/ Efos \/ BatchNew \/ BatchOp \/ Close \/ Get \/ Scan
+             \/ Snap \/ Efos \/ BatchNew \/ BatchOp \/ Close \/ Get \/ Scan \/ FGet \/ FScan
              \/ NewIter \/ IterOp \/ SetBounds \/ SetOpts \/ CloneIt
              \/ CrashProbe \/ Reopen \/ Version \/ DurRead \/ CleanReopen \/ CloseDB \/ Checkpoint \/ ScanInt \/ Ratchet \/ Note
 TraceSpec == TraceInit /\ [][TraceNext]_vars
